@@ -983,6 +983,24 @@ def only_diagnostics(F, R):
     bad = [(base, field) for bi, base, field, var in mut if field not in allowed or base not in ('clear', 'take')]
     R.ob('C09.only-diagnostics-dropped', 'v5::Codec::encodev|only-reason-string-and-user-properties-are-cleared', not bad and bool(mut),
          'under NO_PROBLEM_INFO something other than the Reason String / User Properties is modified: %s' % bad[:4], b.loc(mut[0][0]) if mut else b.loc(tt))
+    # ... but never from CONNACK and DISCONNECT (nor PUBLISH, which is not a `Packet`): they keep their Reason String / User
+    # Properties whatever the client asked for (MQTT 5, 3.1.2.11.7)
+    keep = ('Disconnect', 'ConnectAck', 'Connect')
+    others = sorted({v for bi, base, field, var in mut for v in var if v in keep})
+    ve0 = variant_edges(F, b, 'v5::codec::packet::Packet')
+    for v_, es_ in ve0.items():
+        if v_.endswith('?') or v_ not in keep:
+            continue
+        reg_ = set()
+        for e in es_:
+            if e[0] in region or e[1] in region:
+                # blocks of this arm only: reachable from its edge without passing another arm's edge target
+                reg_ |= b.reachable(e[1], avoid={x[1] for vv, xs in ve0.items() if vv != v_ for x in xs}) & region
+        if any(bi in reg_ for bi, base, field, var in mut):
+            others.append(v_)
+    others = sorted(set(others))
+    R.ob('C09.only-diagnostics-dropped', 'v5::Codec::encodev|CONNACK-and-DISCONNECT-keep-their-diagnostics', not others,
+         'under NO_PROBLEM_INFO the diagnostics of %s are removed as well: Request Problem Information = 0 does not concern PUBLISH, CONNACK and DISCONNECT - the peer decodes a different packet than the one that was encoded' % ', '.join(others), b.loc(mut[0][0]) if mut else b.loc(tt))
     # direct field writes in the region
     wr = [(bi, place_str(s['lhs'])) for bi, j, s in b.assigns() if bi in region and place_proj(s['lhs']) and any(isinstance(e, dict) and 'f' in e for e in place_proj(s['lhs'])) and b.local_name(s['lhs']['l']) in ('item', 'pkt')]
     R.ob('C09.only-diagnostics-dropped', 'v5::Codec::encodev|no-direct-field-writes', not wr, 'fields of the packet are overwritten under NO_PROBLEM_INFO: %s' % wr[:3])
